@@ -174,6 +174,22 @@ pub fn minimize(ctx: &Ctx, sc: &Scenario, key: &str) -> Scenario {
                     n.leak = 0;
                     tries.push(n);
                 }
+                if node.clock.is_some() {
+                    let mut n = node.clone();
+                    n.clock = None;
+                    tries.push(n);
+                }
+                if node.pid.is_some() {
+                    let mut n = node.clone();
+                    n.pid = None;
+                    tries.push(n);
+                }
+                // environment variables that are not part of the configuration, one at a time
+                for (k, _) in node.env.iter().filter(|(k, _)| k != "OUT_DIR" && !k.starts_with("CARGO_FEATURE_") && !k.starts_with("NOISE")) {
+                    let mut n = node.clone();
+                    n.env.retain(|(x, _)| x != k);
+                    tries.push(n);
+                }
                 if let NodeKind::Api { calls } = &node.kind {
                     for ci in 0..calls.len() {
                         let c = &calls[ci];
